@@ -139,12 +139,12 @@ def run(ctx):
                 "mutations): ALL bit patterns for sizes 1..%d, structured patterns (single bits at 0,62,63,64,65,127,128,n-1; all ones; "
                 "alternating; random) and random walks for sizes 1..200 incl. out-of-range and negative indices; Decode of canonical, "
                 "lower-case, zero-padded, garbage-in-unused-bits, wrong word count, empty, too-large, non-hex, signed/prefixed texts; "
-                "Less on all pairs of a 96-key grid and of random lists, sort.Sort results; key sequences of independently constructed "
-                "catchment instances; Compress/Encoding/Decode/Decompress between instances for %s action sets of ValidModel.csv (13 actions) "
+                "Less on all pairs of a 96-key grid and of random lists, sort.Sort results; the pre-sort gathering orders (Go map iteration) and "
+                "the sorted key sequences of independently constructed catchment instances; Compress/Encoding/Decode/Decompress between instances for %s action sets of ValidModel.csv (13 actions) "
                 "and TestingModel.csv (15 actions). distinct_nontrivial = distinct (size, word array) states observed + distinct "
-                "(size, decode text) + distinct (dataset, action set) transferred" % (exh, "all 2^13 / 4096 sampled" if ctx.tier == "thorough" else "400 sampled"),
+                "(size, decode text) + distinct (dataset, action set) transferred" % (exh, "all 2^13 / all 2^15" if ctx.tier == "thorough" else "400 / 400 sampled"),
         "exhaustive": True,
-        "exhaustive_part": "bit patterns of sizes 1..%d; all key pairs of the 96-key grid%s" % (exh, "; all 8192 action sets of ValidModel.csv" if ctx.tier == "thorough" else ""),
+        "exhaustive_part": "bit patterns of sizes 1..%d; all key pairs of the 96-key grid%s" % (exh, "; all 8192 action sets of ValidModel.csv and all 32768 of TestingModel.csv" if ctx.tier == "thorough" else ""),
         "correspondence_shards": nshards,
         "archive_cases": len(arch), "archive_operations": nops, "order_cases": len(order), "portability_cases": len(port),
     })
